@@ -10,6 +10,8 @@
 //   keys =k ...            print `O =k <owner>` for every listed key
 //   dv =x =y               default values of containers 0 and 1 (maps; must be the first directive)
 //   o <rank> <c> <op ...>  rank issues the operation on container c (syntax of lean/Driver/MapSet.lean)
+//   sr <rank>              that rank calls comm.stats_reset() (public API; must not influence anything)
+//   copy                   (maps) container 1 is destroyed and re-created as a copy of container 0 (copy constructor)
 //   B                      world.barrier()
 //   size c | count c =k | forall c | gather c <rank|-1> =k ... | topk c n | swap | clear c
 //   consume c vis | consumeiter c vis            (sets)
@@ -25,6 +27,7 @@
 #include <ygm/container/set.hpp>
 #include <ygm/for_all_adapter.hpp>
 #include <fstream>
+#include <memory>
 #include <algorithm>
 
 using i64 = int64_t;
@@ -154,13 +157,15 @@ int run_map(ygm::comm& world, const std::vector<std::string>& lines) {
   using C = typename std::conditional<MULTI, ygm::container::multimap<K, V, Part, Cmp>, ygm::container::map<K, V, Part, Cmp>>::type;
   V dv0 = V(), dv1 = V();
   if (!lines.empty()) { auto w = toks(lines[0]); if (w.size() == 3 && w[0] == "dv") { dv0 = codec<V>::dec(w[1]); dv1 = codec<V>::dec(w[2]); } }
-  C  c0(world, dv0), c1(world, dv1);
-  C* cs[2] = {&c0, &c1};
+  std::unique_ptr<C> cs[2];
+  cs[0].reset(new C(world, dv0)); cs[1].reset(new C(world, dv1));
+  C& c0 = *cs[0];
   auto cmp = [](const std::pair<K, V>& a, const std::pair<K, V>& b) {
     return a.second > b.second || (a.second == b.second && a.first < b.first); };
   for (size_t li = 0; li < lines.size(); ++li) {
     auto w = toks(lines[li]);
     if (w.empty() || w[0] == "dv") continue;
+    if (w[0] == "sr") { if (atoi(w[1].c_str()) == world.rank()) world.stats_reset(); continue; }
     if (w[0] == "o") {
       if (atoi(w[1].c_str()) != world.rank()) continue;
       int c = atoi(w[2].c_str()); C& m = *cs[c]; const std::string& op = w[3];
@@ -199,13 +204,20 @@ int run_map(ygm::comm& world, const std::vector<std::string>& lines) {
     } else if (w[0] == "topk") {
       auto res = cs[atoi(w[1].c_str())]->topk((size_t)atol(w[2].c_str()), cmp);
       ans = "T"; for (auto& kv : res) ans += " " + E(kv.first) + " " + E(kv.second) + ";";
-    } else if (w[0] == "swap") c0.swap(c1);
+    } else if (w[0] == "swap") cs[0]->swap(*cs[1]);
     else if (w[0] == "clear") cs[atoi(w[1].c_str())]->clear();
+    else if (w[0] == "copy") {
+      // container 1 is destroyed and replaced by a COPY of container 0 (copy constructor); the script goes on at once,
+      // on the copy and on the original
+      cs[1].reset();
+      cs[1].reset(new C(*cs[0]));
+    }
     else { hc::out("bad-directive " + lines[li]); return 3; }
     hc::out("M " + std::to_string(li));
     if (!ans.empty()) hc::out(ans);
   }
   world.barrier();
+  cs[1].reset(); cs[0].reset();
   return 0;
 }
 
@@ -237,6 +249,7 @@ int run_set(ygm::comm& world, const std::vector<std::string>& lines) {
   for (size_t li = 0; li < lines.size(); ++li) {
     auto w = toks(lines[li]);
     if (w.empty() || w[0] == "dv") continue;
+    if (w[0] == "sr") { if (atoi(w[1].c_str()) == world.rank()) world.stats_reset(); continue; }
     if (w[0] == "o") {
       if (atoi(w[1].c_str()) != world.rank()) continue;
       int c = atoi(w[2].c_str()); S& s = *cs[c]; const std::string& op = w[3];
